@@ -255,3 +255,105 @@ def gen_program(rng, stats):
         v.append(a)
         s.append(b)
     return "".join(v), "(" + " ".join(s) + ")", ["var.v%d" % x for x, _ in g.vars]
+
+
+# ---------------------------------------------------------------- SIZE of control structures
+# switches of 1-40 cases mixing string and regex tests that overlap (the same text as a string and as a
+# pattern, patterns matching several strings, control values matching several cases), with fallthrough
+# and default anywhere; if / else-if chains of 1-40 branches whose conditions overlap.  The selected
+# branch is visible in var.v1 (every body assigns its own number), the path in var.v2 (+= number).
+
+WORDS = [a + b + c for a in ("", "a", "b", "c") for b in ("", "a", "b", "c") for c in ("a", "b", "c")]
+WORDS = sorted(set(WORDS), key=lambda w: (len(w), w))          # a b c aa ab ... ccc (39 words)
+
+
+def _tests(rng, n):
+    """n distinct case tests (is_regex, text) drawn so that they overlap heavily"""
+    base = rng.sample(WORDS[:12], min(6, n))                    # few words -> many cases about the same words
+    pool = []
+    for w in base + rng.sample(WORDS, min(len(WORDS), n)):
+        pool += [(False, w), (True, w), (True, "^" + w), (True, w + "$")]
+    seen, out = set(), []
+    rng.shuffle(pool)
+    for t in pool:
+        if t not in seen and len(out) < n:
+            seen.add(t)
+            out.append(t)
+    return out
+
+
+def gen_big_switch(rng, stats, n=None):
+    n = n or rng.randint(1, 40)
+    tests = _tests(rng, n)
+    n = len(tests)
+    dflt = rng.randrange(n + 1) if rng.random() < 0.6 else None        # position of a default among the cases
+    ctl = rng.choice([t[1].strip("^$") for t in tests] + rng.sample(WORDS, 3))
+    vcl = 'declare local var.v0 STRING;\ndeclare local var.v1 INTEGER;\ndeclare local var.v2 INTEGER;\nset var.v0 = "%s";\nswitch (var.v0) {\n' % ctl
+    cs = []
+    entries = [("case", t) for t in tests]
+    if dflt is not None:
+        entries.insert(dflt, ("default", None))
+    for i, (kind, t) in enumerate(entries):
+        ft = i < len(entries) - 1 and rng.random() < 0.2
+        body_v = "set var.v1 = %d;\nset var.v2 += %d;\n" % (i + 1, i + 1)
+        body_s = "((set 1 set (lit I:%d:000)) (set 2 add (lit I:%d:000)))" % (i + 1, i + 1)
+        if kind == "default":
+            vcl += "default:\n"
+            tst = "_"
+        elif t[0]:
+            vcl += 'case ~ "%s":\n' % t[1]
+            tst = '(re "%s")' % t[1].encode().hex()
+        else:
+            vcl += 'case "%s":\n' % t[1]
+            tst = '(eq "%s")' % t[1].encode().hex()
+        vcl += body_v + ("fallthrough;\n" if ft else "break;\n")
+        cs.append("(%s %s %d)" % (tst, body_s, 1 if ft else 0))
+    vcl += "}\n"
+    sx = '((decl 0 STRING) (decl 1 INTEGER) (decl 2 INTEGER) (set 0 set (lit S:%s:0)) (switch (var 0) (%s) %s))' % (
+        ctl.encode().hex(), " ".join(cs), "_" if dflt is None else str(dflt))
+    stats["switch of %s cases" % ("1-8" if len(entries) <= 8 else "9-16" if len(entries) <= 16 else "17-41")] = \
+        stats.get("switch of %s cases" % ("1-8" if len(entries) <= 8 else "9-16" if len(entries) <= 16 else "17-41"), 0) + 1
+    return vcl, sx, ["var.v0", "var.v1", "var.v2"]
+
+
+def gen_big_if(rng, stats, n=None):
+    n = n or rng.randint(1, 40)
+    ctl = rng.choice(WORDS)
+    num = rng.randint(0, 40)
+    vcl = 'declare local var.v0 STRING;\ndeclare local var.v1 INTEGER;\ndeclare local var.v2 INTEGER;\nset var.v0 = "%s";\nset var.v2 = %d;\n' % (ctl, num)
+    conds = []
+    for i in range(n):
+        k = rng.random()
+        if k < 0.35:
+            w = rng.choice(WORDS[:15])
+            conds.append(('var.v0 == "%s"' % w, "(infix eq (op (var 0)) (op (lit S:%s:0)))" % w.encode().hex()))
+        elif k < 0.7:
+            w = rng.choice(WORDS[:15])
+            p = rng.choice([w, "^" + w, w + "$"])
+            conds.append(('var.v0 ~ "%s"' % p, "(infix match (op (var 0)) (op (lit S:%s:0)))" % p.encode().hex()))
+        else:
+            op = rng.choice(["lt", "gt", "le", "ge", "eq"])
+            m = rng.randint(0, 40)
+            conds.append(("var.v2 %s %d" % (BOP_TEXT[op], m), "(infix %s (op (var 2)) (op (lit I:%d:000)))" % (op, m)))
+    has_else = rng.random() < 0.5
+    body_v = lambda i: "set var.v1 = %d;\n" % (i + 1)
+    body_s = lambda i: "((set 1 set (lit I:%d:000)))" % (i + 1)
+    vcl += "if (%s) {\n%s}\n" % (conds[0][0], body_v(0))
+    for i in range(1, n):
+        vcl += "else if (%s) {\n%s}\n" % (conds[i][0], body_v(i))
+    if has_else:
+        vcl += "else {\n%s}\n" % body_v(n)
+    sx = '((decl 0 STRING) (decl 1 INTEGER) (decl 2 INTEGER) (set 0 set (lit S:%s:0)) (set 2 set (lit I:%d:000)) (if %s %s (%s) %s))' % (
+        ctl.encode().hex(), num, conds[0][1], body_s(0), " ".join("(%s %s)" % (conds[i][1], body_s(i)) for i in range(1, n)),
+        body_s(n) if has_else else "_")
+    stats["if chain of %s branches" % ("1-8" if n <= 8 else "9-40")] = stats.get("if chain of %s branches" % ("1-8" if n <= 8 else "9-40"), 0) + 1
+    return vcl, sx, ["var.v0", "var.v1", "var.v2"]
+
+
+def size_sweep(rng, stats):
+    """every size 1..40 once for both structures (always part of the run) """
+    out = []
+    for n in range(1, 41):
+        out.append(gen_big_switch(rng, stats, n))
+        out.append(gen_big_if(rng, stats, n))
+    return out
